@@ -582,7 +582,7 @@ struct Resolver
 {
     const View &view;
     bool strict;
-    bool unitsFlawsOnlyAtRoot = false;
+    bool libraryWalk = false;
     int lastVersion = -1; // version id of what load() returned last
     RefResult res;
     std::set<std::string> onStack;
@@ -638,14 +638,22 @@ struct Resolver
         return &v->spec;
     }
 
-    bool needUnits(const FileSpec &f, const std::string &name)
+    // role (only looked at in the library-walk evaluation): FULL everything counts; SOURCE the units/component an import
+    // refers to, in a library file; USED a units named by such a component; CHILD a non-imported component below one
+    enum Role { FULL, SOURCE, USED, CHILD };
+    bool isClientModel(const FileSpec &f) const { return f.path.compare(0, 1, "<") == 0; }
+
+    bool needUnits(const FileSpec &f, const std::string &name, Role role = FULL)
     {
+        if (!libraryWalk || isClientModel(f)) {
+            role = FULL;
+        }
         if (isStandardUnit(name)) {
             return true;
         }
         // finished work is remembered per spelling of the file (two spellings may hold different versions in the library);
         // what is on the current dependency path is recognised whatever the spelling (an entity depending on itself)
-        std::string doneKey = (f.rawUrl.empty() ? f.path : f.rawUrl) + "|u|" + name;
+        std::string doneKey = (f.rawUrl.empty() ? f.path : f.rawUrl) + "|u|" + name + "|" + std::to_string(int(role));
         std::string key = f.path + "#" + std::to_string(f.servedVersion) + "|u|" + name;
         if (done.count(doneKey) != 0) {
             return true;
@@ -669,14 +677,14 @@ struct Resolver
         if (u.imported) {
             stackImport.push_back(true);
             FileSpec scratch;
-            std::string rawUrl = (f.rawDir.empty() ? f.dir : f.rawDir) + u.href;
+            std::string rawUrl = normalisePath((f.rawDir.empty() ? f.dir : f.rawDir) + u.href); // the importer removes "." and "dir/.." segments
             const FileSpec *g = load(normalisePath(f.dir + u.href), scratch, u.href, rawUrl);
             if (g == nullptr) {
                 ok = false;
             } else if (g->findUnits(u.ref) < 0) {
                 fail(Verdict::UNSAT, "units " + u.ref + " not found in " + g->path);
                 ok = false;
-            } else if (g->units[size_t(g->findUnits(u.ref))].flaw != 0 && (!unitsFlawsOnlyAtRoot || f.path.compare(0, 1, "<") == 0)) {
+            } else if (g->units[size_t(g->findUnits(u.ref))].flaw != 0) {
                 fail(Verdict::UNSAT, "units " + u.ref + " in " + g->path + " has a parser error of its own");
                 ok = false;
             } else {
@@ -685,12 +693,22 @@ struct Resolver
                     copy.servedVersion = lastVersion;
                 copy.rawDir = rawUrl.substr(0, rawUrl.find_last_of('/') + 1);
                 FileScope scope(*this, copy.path);
-                ok = needUnits(copy, u.ref);
+                ok = needUnits(copy, u.ref, SOURCE);
             }
         } else {
             stackImport.push_back(false);
             for (auto &c : u.children) {
-                if (!needUnits(f, c)) {
+                if (role == USED) {
+                    break; // the importer does not look below a non-imported units that a component names
+                }
+                if (role == SOURCE && !isStandardUnit(c)) {
+                    // of the units an import refers to, the importer follows the children that are imports themselves
+                    int ci = f.findUnits(c);
+                    if (ci >= 0 && !f.units[size_t(ci)].imported) {
+                        continue;
+                    }
+                }
+                if (!needUnits(f, c, role == SOURCE ? SOURCE : FULL)) {
                     ok = false;
                     break;
                 }
@@ -705,10 +723,13 @@ struct Resolver
         return ok;
     }
 
-    bool needComp(const FileSpec &f, int ci)
+    bool needComp(const FileSpec &f, int ci, Role role = FULL)
     {
+        if (!libraryWalk || isClientModel(f)) {
+            role = FULL;
+        }
         const CompSpec &c = f.comps[size_t(ci)];
-        std::string doneKey = (f.rawUrl.empty() ? f.path : f.rawUrl) + "|c|" + c.name;
+        std::string doneKey = (f.rawUrl.empty() ? f.path : f.rawUrl) + "|c|" + c.name + "|" + std::to_string(int(role));
         std::string key = f.path + "#" + std::to_string(f.servedVersion) + "|c|" + c.name;
         if (done.count(doneKey) != 0) {
             return true;
@@ -723,7 +744,7 @@ struct Resolver
         bool ok = true;
         if (c.imported) {
             FileSpec scratch;
-            std::string rawUrl = (f.rawDir.empty() ? f.dir : f.rawDir) + c.href;
+            std::string rawUrl = normalisePath((f.rawDir.empty() ? f.dir : f.rawDir) + c.href);
             const FileSpec *g = load(normalisePath(f.dir + c.href), scratch, c.href, rawUrl);
             if (g == nullptr) {
                 ok = false;
@@ -741,24 +762,24 @@ struct Resolver
                     copy.servedVersion = lastVersion;
                     copy.rawDir = rawUrl.substr(0, rawUrl.find_last_of('/') + 1);
                     FileScope scope(*this, copy.path);
-                    ok = needComp(copy, ti);
+                    ok = needComp(copy, ti, SOURCE);
                 }
             }
-        } else {
+        } else if (role != CHILD) { // (the importer does not look at the units of a non-imported component below an imported one)
             for (auto &v : c.vars) {
-                if (ok && !needUnits(f, v.units)) {
+                if (ok && !needUnits(f, v.units, role == SOURCE ? USED : FULL)) {
                     ok = false;
                 }
             }
             for (auto &u : c.cn) {
-                if (ok && !needUnits(f, u)) {
+                if (ok && !needUnits(f, u, role == SOURCE ? USED : FULL)) {
                     ok = false;
                 }
             }
         }
         for (size_t k = 0; ok && k < f.comps.size(); ++k) {
             if (f.comps[k].parent == ci) {
-                ok = needComp(f, int(k));
+                ok = needComp(f, int(k), role == FULL ? FULL : CHILD);
             }
         }
         stackImport.pop_back();
@@ -807,10 +828,10 @@ struct Resolver
 
 } // namespace
 
-RefResult referenceResolve(const FileSpec &rootOnDisk, const View &view, bool strict, bool unitsFlawsOnlyAtRoot)
+RefResult referenceResolve(const FileSpec &rootOnDisk, const View &view, bool strict, bool libraryWalk)
 {
     Resolver r(view, strict);
-    r.unitsFlawsOnlyAtRoot = unitsFlawsOnlyAtRoot;
+    r.libraryWalk = libraryWalk;
     // the client's in-memory model is not the file of the same path on disk
     FileSpec root = rootOnDisk;
     root.path = "<client model parsed from " + rootOnDisk.path + ">";
